@@ -2,7 +2,6 @@ package limiter
 
 import (
 	"fmt"
-	"os"
 	"sort"
 	"strconv"
 	"strings"
@@ -32,16 +31,16 @@ import (
 // neither of the two undocumented corners (spec.go, judge.go) can be reached.
 
 type scen struct {
-	Cfg     tcfg    `json:"config"`
-	Pre     []tstep `json:"prologue"`
-	Gap     int     `json:"gap_ms"` // virtual time between prologue and the concurrent phase
-	W       []tstep `json:"workers"`
-	KeyMax  []int   `json:"key_max"`
+	Cfg    tcfg    `json:"config"`
+	Pre    []tstep `json:"prologue"`
+	Gap    int     `json:"gap_ms"` // virtual time between prologue and the concurrent phase
+	W      []tstep `json:"workers"`
+	KeyMax []int   `json:"key_max"`
 	// Level of boundaries: 0 = Storage.Get/Set, MaxFunc, KeyGenerator, handler entry and exit;
 	// 1 = Storage.Get/Set and handler entry; 2 = Storage.Get/Set only (every order of storage
 	// operations is still reached; only the instants at which handler entry / exit are stamped
 	// vary less). Coarser levels make three workers exhaustible.
-	Level int `json:"boundary_level"`
+	Level   int `json:"boundary_level"`
 	workers string
 }
 
@@ -101,7 +100,7 @@ func genScen(r *gen.Rand, nw int) *scen {
 		sc.W = append(sc.W, mk(k))
 	}
 	if nw >= 3 {
-		sc.Level = r.PickW(0, 1, 2)
+		sc.Level = r.Range(1, 2)
 	}
 	return sc
 }
@@ -311,7 +310,12 @@ func (sc *scen) judgeConc(a algoCfg, run *schedRun) {
 					refunded++ // its handler had returned: the refund may already have been applied
 				}
 			}
-			if floor+n+1-refunded > max {
+			if need := floor + n + 1 - refunded; need > max {
+				if max != cfg.Max && need <= cfg.Max {
+					run.fails = append(run.fails, finding{Sig: "limit-not-from-MaxFunc|" + cfg.algo() + "|admission",
+						What: fmt.Sprintf("key %d: w%d is handler execution #%d of the window, more than MaxFunc(c)=%d allows but within cfg.Max=%d", k, i, n+1, max, cfg.Max)})
+					break
+				}
 				run.fails = append(run.fails, finding{Sig: "over-admit|" + cfg.algo() + "|concurrent-storage",
 					What: fmt.Sprintf("key %d: w%d is handler execution #%d of the window (plus %d admitted before the phase, weighted), at most %d earlier ones can have been refunded, limit %d", k, i, n+1, floor, refunded, max)})
 				break
@@ -450,10 +454,7 @@ func (sc *scen) account(e *ev.Env, c *ev.Case, run *schedRun, family string, see
 func runSched(e *ev.Env, c *ev.Case) {
 	r := c.R
 	sc := genScen(r, r.PickW(3, 2)+2)
-	limit := e.N(400, 3000)
-	if v := os.Getenv("LIM_DFS_CAP"); v != "" {
-		limit, _ = strconv.Atoi(v)
-	}
+	limit := e.N(600, 40000)
 	seen := map[string]bool{}
 	n, exhausted := sched.DFS(limit, func(ch sched.Chooser) *sched.Outcome {
 		run := sc.runOnce(c.ID, ch)
